@@ -11,6 +11,8 @@ def run(run):
     quick = run.tier == 'quick'
     run.rule = ('cases = GraphSM behaviours over compromise / undo (from either side), attach, add / remove attacker, '
                 'remove node; non-trivial = at least two graph actions; distinct by action sequence')
+    # unbounded in history length: IndInv of the typed extract AtkRel is an inductive invariant (Apalache)
+    run.apalache('AtkRel', [('Init', 'IndInv', 0), ('IndInit', 'IndInv', 1)])
     gsm.mc_slice(run, 'C11', 7 if quick else 8, must=('Compromise', 'Undo', 'RemoveGAttacker', 'AttachAttackers', 'AddGAttacker'))
     gsm.bfs_slice(run, 'C11', 5 if quick else 6, keep=KEEP)
     gsm.simulate(run, 'C11', 14, 3000 if quick else 50000, keep=KEEP, timeout=300 if quick else 1800)
